@@ -5,6 +5,7 @@ import AdaptiveModel.Drv.DataSaver
 import AdaptiveModel.Drv.Avg
 import AdaptiveModel.Drv.Avg1D
 import AdaptiveModel.Drv.L1D
+import AdaptiveModel.Drv.Balancing
 /-!
 Line-protocol driver: `lake env lean --run Driver.lean < ops.txt`.
 Each input line is `<component> <op> <args…>`; one output line per input line.
@@ -15,6 +16,7 @@ structure All where
   l1 : L1D.Drv.D := {}
   avg : Avg.State Float := Avg.init none none 2
   a1 : Avg1D.State Float := { minSamples := 0, maxSamples := 0, neighborSampling := 0 }
+  bal : Balancing.Drv.St := Balancing.init [] .cycle
   run : Runner.State := Runner.init { ntasks := 1, retries := 0, raiseIf := true, blocking := true, doLog := false }
 
 def stepAll (a : All) (line : String) : All × String :=
@@ -25,6 +27,7 @@ def stepAll (a : All) (line : String) : All × String :=
   | "avg" :: rest => let (s, o) := Avg.Drv.stepLine a.avg rest; ({ a with avg := s }, o)
   | "a1" :: rest => let (s, o) := Avg1D.Drv.stepLine a.a1 rest; ({ a with a1 := s }, o)
   | "l1" :: rest => let (s, o) := L1D.Drv.stepLine a.l1 rest; ({ a with l1 := s }, o)
+  | "bal" :: rest => let (s, o) := Balancing.Drv.stepLine a.bal rest; ({ a with bal := s }, o)
   | "save" :: rest => (a, SaveFs.Drv.stepLine rest)
   | _ => (a, "bad-component")
 
